@@ -157,9 +157,11 @@ func (tx *Tx) getTxID() (id uint64, err error) {
 // 5. Unlock the database and clear the db field.
 func (tx *Tx) Commit() error {
 	var (
-		off            int64
-		e              *Entry
-		bucketMetaTemp BucketMeta
+		off int64
+		e   *Entry
+		// key range written by this transaction, per bucket (sparse mode)
+		bucketMetaTemps   = map[string]BucketMeta{}
+		bucketMetaBuckets []string // in order of first write
 	)
 
 	if tx.db == nil {
@@ -236,7 +238,10 @@ func (tx *Tx) Commit() error {
 		tx.db.ActiveFile.writeOff += entrySize
 
 		if tx.db.opt.EntryIdxMode == HintBPTSparseIdxMode {
-			bucketMetaTemp = tx.buildTempBucketMetaIdx(bucket, entry.Key, bucketMetaTemp)
+			if _, ok := bucketMetaTemps[bucket]; !ok {
+				bucketMetaBuckets = append(bucketMetaBuckets, bucket)
+			}
+			bucketMetaTemps[bucket] = tx.buildTempBucketMetaIdx(bucket, entry.Key, bucketMetaTemps[bucket])
 		}
 
 		if i == lastIndex {
@@ -246,8 +251,15 @@ func (tx *Tx) Commit() error {
 					return err
 				}
 
-				if err := tx.buildBucketMetaIdx(bucket, entry.Key, bucketMetaTemp); err != nil {
-					return err
+				// One key range per bucket: a single accumulator applied to the
+				// bucket of the last entry left every other bucket of the
+				// transaction without (or with a stale) key range, so GetAll did
+				// not see its new keys, and widened the last bucket's range by
+				// the other buckets' keys.
+				for _, b := range bucketMetaBuckets {
+					if err := tx.buildBucketMetaIdx(b, entry.Key, bucketMetaTemps[b]); err != nil {
+						return err
+					}
 				}
 			} else {
 				tx.db.committedTxIds[txID] = struct{}{}
